@@ -4,12 +4,13 @@ from vflib import gluechecks
 
 def run(tier, only=None):
     q = []
-    hs = [(2, 5), (2, 16)] if tier == "quick" else [(2, 3), (2, 5), (2, 16), (3, 5), (3, 8)]
+    # (the history starts from an arbitrary reachable offset / fitting state, so H counts the calls after that)
+    hs = [(1, 5), (1, 16), (2, 5)] if tier == "quick" else [(1, 5), (1, 16), (2, 3), (2, 5), (2, 16), (3, 5), (3, 8)]
     for h, c in hs:
         q.append({"name": "c07.history.h%d.c%d" % (h, c), "cfile": "glue_c07.c",
                   "defs": ["-DMODE_C07", "-DH=%d" % h, "-DKMAX=2", "-DNPROG=%d" % (h + 1), "-DGBUF=56", "-DLMAX=13", "-DCMAX=64",
                            "-DCFIX=%d" % c, "-DGLUE_NOWRITE"], "unwindset": {"nop_padding.1": (c - 1) // 11 + 2},
-                  "timeout": 1500 if tier == "quick" else 5400})
+                  "timeout": 800 if tier == "quick" else 5400})
     return gluechecks.run_queries(
         "C07", tier, q,
         "buffer length n in 0..56, a history of H calls each chosen among set_chunk_size(0/1/c), set_offset(k in 0..n), asm_assemble_str, asm_assemble_string_counting_chunks(0/1/c), create+destroy of another instance; every program has up to 2 abstract lines that may be skipped, fail, or be an instruction of length 1..13",
